@@ -9,9 +9,11 @@ names = [a for a in sys.argv[1:] if not a.startswith('--')]
 shard = next((a[8:] for a in sys.argv[1:] if a.startswith('--shard=')), None)
 skipf = next((a[7:] for a in sys.argv[1:] if a.startswith('--skip=')), None)
 skip = {l.split()[0] for l in open(skipf) if l.strip()} if skipf else set()
+# --max=N: only seeds s01..sN
+maxn = int(next((a[6:] for a in sys.argv[1:] if a.startswith('--max=')), 10**6))
 for n_, d in enumerate(sorted(glob.glob(os.path.join(VERIF, 'seeded', 's*')))):
     name = os.path.basename(d)
-    if not os.path.isdir(d) or name in skip:
+    if not os.path.isdir(d) or name in skip or int(name[1:].split('-')[0]) > maxn:
         continue
     if shard and n_ % int(shard.split('/')[1]) != int(shard.split('/')[0]):
         continue
